@@ -1002,12 +1002,13 @@ impl Context<'_> {
                 .map(|(name, value)| (self.constant_name(name), format!("{}", value)))
                 .collect(),
 
+            // the attribute macro represents `OPTIONAL` and `DEFAULT` as wrapping types
+            Type::Optional(inner) | Type::Default(inner, _) => self.to_rust_constants(inner),
+
             Type::Boolean
             | Type::Null
             | Type::String(..)
             | Type::OctetString(_)
-            | Type::Optional(_)
-            | Type::Default(..)
             | Type::Sequence(_)
             | Type::SequenceOf(..)
             | Type::Set(_)
